@@ -24,7 +24,7 @@
 (* a seeded variant (os.Stat instead of os.Lstat on the destination path):  *)
 (* TLC must reject it (NothingOutside / Arrived).                            *)
 (***************************************************************************)
-EXTENDS Integers, FiniteSets, TLC
+EXTENDS Integers, FiniteSets, TLC, Json, IOUtils, Sequences
 CONSTANTS DeviceBeforeLink, StatFollows
 
 OldKinds == {"none", "file", "dir0", "dir1", "linkOut", "fifo"}
@@ -116,4 +116,14 @@ MergedDirKept == pc = "done" /\ old = "dir1" /\ NewIsDir => fs["C"] = 6 /\ fs["D
 \* in EVERY state (crash points included): nothing outside the destination path and its temporary twin changes
 NothingOutside == fs["O"] = 3 /\ fs["OC"] = 4 /\ fs["X"] = 1 /\ fs["Y"] = 2 /\ kind[3] = "dir" /\ kind[4] = "file"
 NoLeftover == pc = "done" => fs["T"] = 0
+
+\* ---- case generation for the dwcases driver (configuration _gen): one file per (old, new) pair with what the model's run
+\* ends in; the driver performs the same call on the real DiskWriter and the trace spec DWTrace compares
+GenCases ==
+  (pc \in {"done", "failed"}) =>
+     ndJsonSerialize(IOEnv.VERIF_GEN_DIR \o "/dwcase_" \o old \o "_" \o new \o ".ndjson",
+        <<[old |-> old, new |-> new, fails |-> (pc = "failed"),
+           kindAtD |-> (IF fs["D"] = 0 THEN "none" ELSE kind[fs["D"]]),
+           sameAsX |-> (fs["D"] # 0 /\ fs["D"] = fs["X"]), sameAsY |-> (fs["D"] # 0 /\ fs["D"] = fs["Y"]),
+           childLeft |-> (fs["C"] # 0), keptDirInode |-> (old # "none" /\ fs["D"] = 5), leftover |-> (fs["T"] # 0)]>>)
 =============================================================================
